@@ -30,6 +30,7 @@ RULE = ("A trace segment is the life of ONE boc.MerkleProver (Reset = NewMerkleP
         "proof bags + distinct refusals.")
 
 TRACE = ("MerkleProof_Trace", "trace/MerkleProof_Trace.cfg")
+KEY_FORMS = ["exact", "oversized", "cell-raw", "cell-read", "appended"]      # harness/internal/c18 mkKey
 
 
 def vector_of(seg, upto):
@@ -48,7 +49,7 @@ def vector_of(seg, upto):
     elif any(c["x"] in (3, 4) for c in cs):
         v["bag"] = "memory"   # built in memory from the rows (no pruned branches)
     if r.get("kind") == "dict":
-        v.update(t="dict", n=r["n"], keys=[e["key"] for e in evs if e.get("k") == "Key"])
+        v.update(t="dict", n=r["n"], keys=[e["key"] for e in evs if e.get("k") == "Key"], kfs=[e.get("kf", "exact") for e in evs if e.get("k") == "Key"])
     else:
         v.update(t="walk", script=[{"k": e["k"], "c": e["c"], "h": e.get("h", 0), "nh": e.get("nh", 0), "i": e.get("i", 0)}
                                    for e in evs if e.get("k") in ("Cursor", "Ref", "Prune", "Create")])
@@ -82,7 +83,14 @@ def finding_key(e, reason, cls):
         return "C18:dict:%s:%s" % (reason, cls)
     if k == "Create":
         return "C18:walk:%s" % reason
+    if k == "Panic" and e.get("op") == "NewMerkleProver":
+        return "C18:new-merkle-prover:%s" % ("panic" if e.get("panic") else "error")   # a source of the domain is not accepted
     return "C18:event:%s" % (k or "?")
+
+
+def multi_level_pruned(cs):
+    """the masks of the pruned-branch rows that store more than one level"""
+    return {int(c["b"][8:16], 2) for c in cs if c["x"] == 1 and len(c["b"]) >= 16 and bin(int(c["b"][8:16], 2) & 7).count("1") > 1}
 
 
 def judge(ck, traces, stats):
@@ -127,15 +135,38 @@ def judge(ck, traces, stats):
             elif e.get("k") == "Create":
                 what = "CreateProof judgement fails at clause '%s' for session %s (%s%s): err=%r proof=%s" % (
                     reason, e["c"], ctx, cl, e.get("msg", e["err"]), e["proof"][:400])
+            elif e.get("k") == "Panic" and e.get("op") == "NewMerkleProver":
+                what = "NewMerkleProver does not accept a source of the domain (%s): panic=%r err=%r" % (ctx, e.get("panic"), e.get("msg"))
             else:
                 what = "recorded event has no action in MerkleProof_Trace (%s): %s" % (ctx, json.dumps(cellcommon.slim(e, 600)))
-            found.append((len(r["cells"]) * 1000 + rj["accepted"], key, what, {"kind": "vector", "vector": vector_of(seg, rj["accepted"])},
-                          bool(r.get("preread")) and cls in ("plain", "partial", "merkle", "beneath-merkle", "")))
-    # what fails ONLY on provers whose cells had been read before NewMerkleProver (and not for a reason named by another input
-    # class) is named by that input class; the failing clause is in the text
-    plain_keys = {f[1] for f in found if not f[4]}
-    found = [(f[0], f[1] if (not f[4] or f[1] in plain_keys) else "C18:cells-read-before-prover",
-              f[2] + ("" if not f[4] else " [the cells of the source had advanced read cursors when the prover was built]"), f[3]) for f in found]
+            # input classes that are invisible to the specification (it sees values): they only NAME a finding, and only when
+            # it occurs in no input outside the class
+            tags = []
+            if cls in ("plain", "partial", "merkle", "beneath-merkle", ""):
+                if e.get("k") == "Key" and e.get("kf", "exact") != "exact":
+                    tags.append("kf")
+                if multi_level_pruned(r["cells"]):
+                    tags.append("mlp")
+                if r.get("preread"):
+                    tags.append("pre")
+            if "kf" in tags:
+                what += " [the key was handed over as a BitString made as '%s']" % e["kf"]
+            if "mlp" in tags:
+                what += " [the source holds pruned branches that store several levels: masks %s]" % sorted(multi_level_pruned(r["cells"]))
+            if "pre" in tags:
+                what += " [the cells of the source had advanced read cursors when the prover was built]"
+            found.append((len(r["cells"]) * 1000 + rj["accepted"], key, what, {"kind": "vector", "vector": vector_of(seg, rj["accepted"])}, tuple(tags)))
+    NAMES = {"kf": "C18:dict:key-bitstring-object-form", "mlp": "C18:source-with-multi-level-pruned-branch", "pre": "C18:cells-read-before-prover"}
+    untagged = {f[1] for f in found if not f[4]}
+    only = {t: {f[1] for f in found if f[4] == (t,)} for t in NAMES}
+    def name(f):
+        if not f[4] or f[1] in untagged:
+            return f[1]
+        for t in ("kf", "mlp", "pre"):      # the class that alone explains this key somewhere; else the first of the entry's classes
+            if t in f[4] and f[1] in only[t]:
+                return NAMES[t]
+        return NAMES[next(t for t in ("kf", "mlp", "pre") if t in f[4])]
+    found = [(f[0], name(f), f[2], f[3]) for f in found]
     if stats["skipped_two_step_segments"] and not found:
         raise Infra("%d two-step segments could not be judged (source is not a view of the original) although no first-step proof was rejected" % stats["skipped_two_step_segments"])
     return found
@@ -148,7 +179,8 @@ CANARY_EXPECT = [("W1", None), ("W2", ("pruned-but-not-asked", "leak")), ("W3", 
                  ("P1", None), ("P2", ("level-mask", "partial")), ("P3", ("stored-hash", "partial")), ("P4", ("pruned-cell", "partial")),
                  ("Q1", None), ("Q2", ("stored-hash", "partial")),
                  ("H1", None), ("H2", ("asked-but-not-pruned", "held")), ("K1", ("kept-cell", "plain")),
-                 ("X1", None), ("X2", ("pruned-cell", "beneath-merkle")), ("X3", ("create-proof-error", "merkle")), ("X4", None)]
+                 ("X1", None), ("X2", ("pruned-cell", "beneath-merkle")), ("X3", ("create-proof-error", "merkle")), ("X4", None),
+                 ("D7", ("present-key-error", "plain")), ("X5", None), ("X6", ("stored-depth", "merkle"))]
 
 
 def canaries(ck):
@@ -221,6 +253,11 @@ def generate(ck):
     for v in exo:
         v["src"] = "gen:merkle-below-root:tree%d" % v["xtree"]
         v["mclass"] = merkle_class(v)
+    # sources that already hold pruned branches storing several levels (masks 3, 5, 6, 7 beneath two / three Merkle cells)
+    exoD = [v for v in exo if multi_level_pruned(v["cells"])]
+    if {m for v in exoD for m in multi_level_pruned(v["cells"])} != {3, 5, 6, 7} or len(exoD) < 200:
+        raise Infra("no generated source holds pruned branches of the masks 3, 5, 6 and 7 (%d vectors)" % len(exoD))
+    exo = [v for v in exo if not multi_level_pruned(v["cells"])]
     exoA = [v for v in exo if "beneath" in v["mclass"]]
     exoB = [v for v in exo if "beneath" not in v["mclass"] and v["mclass"] & {"at", "above"}]
     exoC = [v for v in exo if not v["mclass"] & {"beneath", "at", "above"}]
@@ -272,7 +309,7 @@ def generate(ck):
     ck.extra["generated"] = {"walk_dfs": len(walks), "walk_free": len(free), "dict": len(dicts), "dict_with_equal_siblings": len(twin),
                              "walk_two_step": len(walks2), "dict_two_step": len(dicts2),
                              "walk_hold": len(hold), "walk_hold_prune_through_held_value_depth>=2": len(holdA),
-                             "walk_merkle_cell_below_root": len(exo), "walk_merkle_prune_strictly_beneath": len(exoA),
+                             "walk_merkle_cell_below_root": len(exo) + len(exoD), "walk_source_with_multi_level_pruned_branches": len(exoD), "walk_merkle_prune_strictly_beneath": len(exoA),
                              "walk_merkle_prune_at_or_above": len(exoB), "walk_merkle_prune_beside_or_none": len(exoC)}
     def later_request_after_prune(v):      # a session that starts after an earlier session pruned something
         seen = False
@@ -285,25 +322,27 @@ def generate(ck):
     seq = [v for v in walks if later_request_after_prune(v)]
     other = [v for v in walks if not later_request_after_prune(v)]
     ck.extra["generated"]["walk_dfs_with_session_after_prune"] = len(seq)
-    for l in (seq, other, free, twin, plain, w2a, w2b, dicts2, holdA, holdB, exoA, exoB, exoC):
+    for l in (seq, other, free, twin, plain, w2a, w2b, dicts2, holdA, holdB, exoA, exoB, exoC, exoD):
         ck.rng.shuffle(l)
     if q:
         seq, other, free, twin, plain = seq[:200], other[:80], free[:80], twin[:100], plain[:150]
         w2a, w2b, dicts2 = w2a[:420], w2b[:60], dicts2[:320]
         holdA, holdB = holdA[:260], holdB[:100]
-        exoA, exoB, exoC = exoA[:160], exoB[:110], exoC[:50]
+        exoA, exoB, exoC, exoD = exoA[:160], exoB[:110], exoC[:50], exoD[:75]
     else:
         seq, other, free = seq[:7000], other[:3000], free[:4000]
         w2a, w2b, dicts2 = w2a[:12000], w2b[:1500], dicts2[:8000]
         holdA, holdB = holdA[:9000], holdB[:3000]
         exoA, exoB, exoC = exoA[:6000], exoB[:4000], exoC[:1500]
-    vecs = seq + other + free + twin + plain + w2a + w2b + dicts2 + holdA + holdB + exoA + exoB + exoC
+    vecs = seq + other + free + twin + plain + w2a + w2b + dicts2 + holdA + holdB + exoA + exoB + exoC + exoD
     for i, v in enumerate(vecs):
         v["vec"] = i
         # every third vector: the cells are read before the prover is built (walks: nothing reset afterwards; dictionaries:
         # alternately every cell partly read / all keys proven by another prover first; the root is reset per key as the API asks)
         if i % 3 == 1:
             v["preread"] = "readall" if v["t"] == "walk" or i % 2 else "prove-before"
+        if v["t"] == "dict":     # the key is a value: every way of making the BitString object, rotating over requests and vectors
+            v["kfs"] = [KEY_FORMS[(i + j) % len(KEY_FORMS)] for j in range(len(v["keys"]))]
         if "orig" in v:
             v["orig"] = [{"b": c["b"], "x": c["x"], "r": c["r"]} for c in v["orig"]]
         for f in ("selfcheck", "reqs", "twin", "forms", "vmode", "xtree", "mclass"):
@@ -338,9 +377,12 @@ def run(ck):
             if k == "Reset":
                 mode, nreq, seg, two, pre = e["mode"], 0, seg + 1, "orig" in e, bool(e.get("preread"))
                 mk = any(c["x"] in (3, 4) for c in e["cells"])
+                for m in multi_level_pruned(e["cells"]):
+                    stats["provers_source_with_pruned_mask_%d" % m] += 1
                 stats["%s_provers:%s" % (e["kind"], mode)] += 1
             elif k == "Key":
                 nreq += 1
+                stats["dict_requests_key_form:" + e.get("kf", "?")] += 1
                 if e["proof"]:
                     stats["dict_proofs"] += 1; proofs.add(e["proof"])
                     stats["dict_proofs_after_first_request"] += nreq > 1
@@ -364,7 +406,9 @@ def run(ck):
             or stats["dict_proofs_after_first_request"] < 1000 or stats["walk_proofs_after_first_request"] < 800
             or stats["dict_proofs_two_step"] < 300 or stats["walk_proofs_two_step"] < 500
             or stats["dict_proofs_cells_read_before"] < 500 or stats["walk_proofs_cells_read_before"] < 500
-            or stats["walk_requests_source_with_merkle_cells"] < 400):
+            or stats["walk_requests_source_with_merkle_cells"] < 400
+            or any(stats["dict_requests_key_form:" + f] < 500 for f in KEY_FORMS)
+            or any(stats["provers_source_with_pruned_mask_%d" % m] < 3 for m in (3, 5, 6, 7))):
         raise Infra("too few proofs recorded (vacuous): %s" % dict(stats))
     for m in ("tree", "dag", "boc", "lib", "proof"):
         if not stats["dict_provers:" + m]:
@@ -412,6 +456,8 @@ def replay(ck, path):
             print("  session %s: cursor value %s := value %s .Ref(%s)" % (e["c"], e["nh"], e["h"], e["i"]))
         elif e.get("k") == "Prune":
             print("  session %s: value %s .Prune()" % (e["c"], e["h"]))
+        elif e.get("k") == "Panic":
+            print("  %s failed: panic=%r err=%r" % (e.get("op"), e.get("panic"), e.get("msg")))
     for t in res.tuples("NOTE"):
         print("rejected: line %s clause %s (%s)" % tuple(t[1:4]))
     if rej:
